@@ -25,6 +25,7 @@ TranslateError naming file, line and construct):
                             numpy.argmin(arr) | arr.argmin()    -> np_argmin
                             df.iloc[k]                          -> df_iloc df k
                             {} ; d[k] = series ; d[k]           -> dict_empty, dict_set, dict_get (KeyError = None)
+                            for k, v in d.items():              -> py_for over dict_items d (insertion order; the body may not assign d)
                             pandas.DataFrame(columns=<list of names>, index=<labels>)   -> oframe_new
                             table[k] = series                   -> oframe_set  (assignment ALIGNS on the index labels)
   fit_data(df)              df.index.to_numpy(), df.columns.to_numpy(), df.to_numpy(), RectBivariateSpline(x, y, z) -> mk_spline
@@ -294,6 +295,8 @@ class CliTr(FunTr):
                 return Val(v.term, "arr")
             if v.ty == "table":
                 return Val("(df_values %s)" % v.term, "mat")
+        if attr == "items" and not args and not kwargs and v.ty == "dict:series":
+            return Val("(dict_items %s)" % v.term, "items:series")      # (key, value) pairs in insertion order
         if attr == "argmin" and not args and not kwargs and v.ty == "arr":
             return Val("(np_argmin %s)" % v.term, "nat")
         self.bail(e, "method `.%s(...)` of a value of type %s" % (attr, v.ty))
@@ -338,7 +341,14 @@ class CliTr(FunTr):
             return Val("(np_sub_s %s %s)" % (l.term, r.term), "arr")
         self.bail(e, "operator %s on (%s, %s) in `%s`" % (type(op).__name__, l.ty, r.ty, src_of(e)[:60]))
 
+    def unpack(self, v, n, node, ident):
+        if v.ty == "item:series" and n == 2:       # (key, value) of dict.items()
+            return [Val("(fst %s)" % ident, "str"), Val("(snd %s)" % ident, "series")]
+        self.bail(node, "unpacking of a value of type %s into %d names" % (v.ty, n))
+
     def iterable(self, v, e):
+        if v.ty == "items:series":
+            return v.term, "item:series"
         if v.ty == "liststr":
             return v.term, "str"
         self.bail(e, "iteration over a value of type %s" % v.ty)
